@@ -3,7 +3,7 @@ CONSTANTS
   MaxGuards = 2
   MaxActs = 2
   Engines = 2
-  RefLevel = "full"
+  RefLevel = "small"
   Places = {"global", "closure", "list", "box", "hash", "cont", "host"}
   Derive = TRUE
   Pair = FALSE
